@@ -27,6 +27,9 @@ CORPUS = [
     [(10, 0), (18, 0), (10, 0)], [(9, 0), (18, 0), (9, 0)], [(11, 1), (18, 0), (11, 1)],   # set_transform
     [(10, 0), (18, 1), (10, 0)], [(9, 0), (18, 1), (9, 0)], [(11, 1), (18, 1), (11, 1)], [(10, 0), (18, 2), (11, 1)],
     [(0, 0), (20, 0), (16, 5), (0, 0)], [(7, 2), (20, 0), (7, 0)],
+    [(13, 1), (16, 5), (13, 1)], [(13, 2), (16, 5), (13, 2)], [(13, 1), (17, 1), (13, 1)],      # exports after mutators
+    [(8, 0), (7, 0)], [(7, 0), (8, 0)], [(8, 0), (7, 0), (8, 0)],                                # classic vs Strahler memo
+    [(11, 1), (11, 1)], [(11, 1), (10, 0)], [(11, 1), (11, 0), (11, 1)],                         # repeated unit conversions
 ]
 
 
@@ -68,6 +71,8 @@ def cases(tier, rng):
                     a = rng.randint(1, 3)
             elif c == 11:
                 a = rng.randrange(2) if raster else 0
+            elif c == 13:
+                a = rng.randrange(3) if raster else 0
             elif c == 19:
                 a = rng.randrange(2)
             elif c == 18:
@@ -167,6 +172,10 @@ def impl(case):
         if c == 12:
             return np.asarray(o.accuflux(R(_arr("data", arg, n)))).ravel().tolist()
         if c == 13:
+            if raster and arg:
+                # exports must describe the CURRENT network (nextxy always succeeds; d8 may raise on far links)
+                v = o.to_array("nextxy" if arg == 1 else "d8")
+                return [np.asarray(x).ravel().tolist() for x in (v if arg == 1 else [v])]
             return np.asarray(o.basins()).ravel().tolist() if raster else sorted(int(x) for x in o.idxs_pit)
         if c in (14, 15):
             start = np.array([n - 1])
